@@ -98,6 +98,7 @@ class Agg(object):
 
     def __init__(self):
         self.worlds = 0
+        self.units = 0
         self.events = 0
         self.sim_s = 0
         self.fired = {}
@@ -114,6 +115,7 @@ class Agg(object):
 
     def add(self, scn, out, mod, keep_sample=False):
         self.worlds += 1
+        self.units += out.get('units', 1)
         self.events += out['events']
         self.sim_s += out['sim_s']
         for k, v in out['fired'].items():
@@ -124,11 +126,12 @@ class Agg(object):
             self.probes[k] = self.probes.get(k, 0) + v
         for k, v in out['comps'].items():
             self.comps[k] = self.comps.get(k, 0) + v
-        s = hashlib.sha1(out['sig'].encode()).hexdigest()[:16] if out['sig'] else ''
-        if s:
-            self.sigs.add(s)
-            if out['nontrivial']:
-                self.nontrivial_sigs.add(s)
+        for one in (out.get('sigs') or [out['sig']]):
+            s = hashlib.sha1(one.encode()).hexdigest()[:16] if one else ''
+            if s:
+                self.sigs.add(s)
+                if out['nontrivial']:
+                    self.nontrivial_sigs.add(s)
         if out.get('schedule_sig'):
             self.schedules.add(out['schedule_sig'])
         if out.get('tainted'):
@@ -147,6 +150,7 @@ class Agg(object):
 
     def merge(self, o):
         self.worlds += o.worlds
+        self.units += o.units
         self.events += o.events
         self.sim_s += o.sim_s
         for src, dst in ((o.fired, self.fired), (o.probes, self.probes), (o.comps, self.comps)):
@@ -441,12 +445,14 @@ def check(prop, tier, seed, budget_s=None):
     # 5. evidence
     wall = REAL_MONO() - t_start
     cov = {
-        'evaluations': total.worlds,
+        'evaluations': total.units,
+        'worlds': total.worlds,
         'distinct_nontrivial': len(total.nontrivial_sigs),
         'rule': getattr(mod, 'RULE', ''),
         'samples': total.samples[:5] or [{'note': 'no sample recorded'}],
         'worlds_per_hour': int(total.worlds / wall * 3600) if wall > 0 else 0,
-        'seeds_per_hour': int(total.worlds / wall * 3600) if wall > 0 else 0,
+        'evaluations_per_hour': int(total.units / wall * 3600) if wall > 0 else 0,
+        'seeds_per_hour': int((total.worlds - (sweep_info or {}).get('worlds', 0)) / wall * 3600) if wall > 0 else 0,
         'simulated_seconds': total.sim_s,
         'events': total.events,
         'faults_fired': dict(sorted(total.fired.items())),
